@@ -179,7 +179,7 @@ def run(tier):
     wd = workdir("c08")
     vlib.build_harness()
     r_ = rng(8)
-    nbase = 12 if tier == "quick" else 120
+    nbase = 12 if tier == "quick" else 40
     base = uc.universe_scenarios(r_, wd, nbase, [1, 2, 2, 3], "dual", ["prefer-v4", "only-v4", "prefer-v6"], False,
                                  nq=(1, 1), forwarding_p=0.25)
     for s in base:
